@@ -5,11 +5,13 @@ import NucsProofs.Propagators.CountEq
 import NucsProofs.Propagators.Counting
 import NucsProofs.Propagators.Dummy
 import NucsProofs.Propagators.Element
+import NucsProofs.Propagators.ExactOfSupport
 import NucsProofs.Propagators.GccReg
 import NucsProofs.Propagators.Lex
 import NucsProofs.Propagators.MinMax
 import NucsProofs.Propagators.NoSubCycle
 import NucsProofs.Propagators.Scc
+import NucsProofs.Propagators.SupportCertProofs
 
 /-!
   C06 — a fully instantiated tuple that violates a constraint is always rejected.
